@@ -89,7 +89,10 @@ class Integrate(_SweepBase):
 # ------------------------------------------------------------------------------------------------------- update_nodes
 class UpdateNodes(_SweepBase):
     def instances(self, tier):
-        return [dict(M=M, tau=t) for M in self.Ms(tier) for t in (False, True)]
+        out = [dict(M=M, tau=t) for M in self.Ms(tier) for t in (False, True)]
+        # node sets that contain the left end point (code may special-case coll.left_is_node) and ones without the right one
+        out += [dict(M=M, tau=False, quad=q) for M in (2, 3) for q in ('LOBATTO', 'RADAU-LEFT', 'GAUSS')]
+        return out
 
     def build(self, inst, mk):
         L = self.mk_level(inst, mk)
